@@ -127,6 +127,41 @@ func (v *c06Val) ty() *c06Ty {
 	return &c06Ty{K: v.K}
 }
 
+// c06OtherShape returns a literal whose shape conflicts with v (object next to scalar and v.v.).
+func c06OtherShape(r *Rand, v *c06Val) *c06Val {
+	if v.K == c06Obj || v.K == c06Arr {
+		if r.Chance(1, 4) {
+			return &c06Val{K: c06Num, S: r.Pick(c06Nums)}
+		}
+		return &c06Val{K: c06Str, S: r.Pick(c06Words)}
+	}
+	o := &c06Val{K: c06Obj}
+	for _, n := range c06PickNames(r, r.Range(1, 2)) {
+		o.Names = append(o.Names, n)
+		o.Kids = append(o.Kids, &c06Val{K: c06Str, S: r.Pick(c06Words)})
+	}
+	return o
+}
+
+// c06ObjKey picks a property name of an object among the values (or any key).
+func c06ObjKey(r *Rand, vs []*c06Val) string {
+	for _, v := range vs {
+		for _, n := range v.nodes() {
+			if n.K == c06Obj && len(n.Names) > 0 {
+				return n.Names[r.Intn(len(n.Names))]
+			}
+		}
+	}
+	return r.Pick(c06KeyPool)
+}
+
+// literal-typed include elements (keys disjoint from every other matrix key)
+var c06TypedIncPool = []c06Root{
+	{2, `fromJSON('{"jos": "linux", "jn": 1}')`, c06ObjOf(nil, "jos", c06TStr, "jn", c06TNum)},
+	{2, `fromJSON('{"jcfg": {"a": "x"}}')`, c06ObjOf(nil, "jcfg", c06ObjOf(nil, "a", c06TStr))},
+	{2, `fromJson('{"jflag": true}')`, c06ObjOf(nil, "jflag", c06TBool)},
+}
+
 // nodes lists all value nodes (for choosing the one to make dynamic).
 func (v *c06Val) nodes() []*c06Val {
 	out := []*c06Val{v}
@@ -150,7 +185,11 @@ type c06Row struct {
 type c06Inc struct {
 	Names []string
 	Vals  []*c06Val
-	Expr  string // element given by an expression
+	Expr  string // element given by an (any-typed) expression
+	// element that is given by a literal-typed expression already in the literal workflow
+	// (fromJSON('{...}'), typed as a closed object)
+	TypedExpr string
+	TypedT    *c06Ty
 }
 
 type c06Matrix struct {
@@ -170,7 +209,7 @@ func (m *c06Matrix) clone() *c06Matrix {
 		n.Rows = append(n.Rows, nr)
 	}
 	for _, i := range m.Inc {
-		ni := &c06Inc{Names: i.Names, Expr: i.Expr}
+		ni := &c06Inc{Names: i.Names, Expr: i.Expr, TypedExpr: i.TypedExpr, TypedT: i.TypedT}
 		for _, v := range i.Vals {
 			ni.Vals = append(ni.Vals, v.clone())
 		}
@@ -191,6 +230,10 @@ func (m *c06Matrix) ty() *c06Ty {
 		o.Props = append(o.Props, t)
 	}
 	for _, inc := range m.Inc {
+		if inc.TypedExpr != "" {
+			o = c06Merge(o, inc.TypedT)
+			continue
+		}
 		for i, n := range inc.Names {
 			t := inc.Vals[i].ty()
 			found := false
@@ -237,6 +280,10 @@ func (m *c06Matrix) write(b *YB, indent int) {
 				b.Lf(indent+4, "- %s", c06Quote("${{ "+inc.Expr+" }}"))
 				continue
 			}
+			if inc.TypedExpr != "" {
+				b.Lf(indent+4, "- %s", c06Quote("${{ "+inc.TypedExpr+" }}"))
+				continue
+			}
 			for i, n := range inc.Names {
 				lead := "  "
 				if i == 0 {
@@ -256,6 +303,7 @@ type c06Input struct {
 }
 
 type c06Wf struct {
+	Mode     string     // plain | conflict | norows (shape of the build matrix)
 	Dispatch []c06Input // workflow_dispatch inputs
 	Call     []c06Input // workflow_call inputs (always typed)
 	Twin     string     // name of a workflow_call input that also exists as an untyped workflow_dispatch input
@@ -721,21 +769,66 @@ func c06GenWf(r *Rand) *c06Wf {
 	}
 	needsPrep := c06ObjOf(nil, "prep", c06ObjOf(nil, "outputs", c06ObjOf(nil, "y", c06TStr, "z", c06TStr), "result", c06TStr))
 
-	// build job
+	// build job. Three shapes of literal matrix:
+	//  plain    - all values of a key have the same shape
+	//  conflict - some rows / nested arrays mix shapes (object next to scalar ...): the precise
+	//             Merge is any (or string), uses dereference through it; replacing ONE element by an
+	//             any-typed expression keeps the row any wherever the element stands
+	//  norows   - no rows; include = literal elements followed by elements given by literal-typed
+	//             expressions (closed objects), so that after replacing a literal element by an
+	//             any-typed expression an open object WITHOUT properties is merged with closed ones
+	mode := []string{"plain", "plain", "conflict", "conflict", "norows"}[r.Intn(5)]
+	w.Mode = mode
 	w.Build = &c06Matrix{}
+	var forced []string
 	rowNames := c06PickNames(r, r.Range(1, 4))
+	if mode == "norows" {
+		rowNames = nil
+	}
 	for _, n := range rowNames {
 		first := c06GenVal(r, 2)
+		if mode == "conflict" && r.Chance(1, 3) && first.K != c06Arr {
+			// nested array whose elements conflict
+			first = &c06Val{K: c06Arr, Kids: []*c06Val{first, c06OtherShape(r, first)}}
+			if r.Bool() {
+				first.Kids[0], first.Kids[1] = first.Kids[1], first.Kids[0]
+			}
+		}
 		row := &c06Row{Name: n, Vals: []*c06Val{first}}
 		seen := map[string]bool{first.yaml(): true}
 		for i := r.Intn(3); i > 0; i-- {
 			v := first.vary(r)
+			if mode == "conflict" && r.Chance(2, 3) {
+				v = c06OtherShape(r, first)
+			}
 			if !seen[v.yaml()] { // the matrix rule reports duplicate values
 				seen[v.yaml()] = true
 				row.Vals = append(row.Vals, v)
 			}
 		}
+		if mode == "conflict" && r.Bool() {
+			p := r.Perm(len(row.Vals))
+			vs := make([]*c06Val, len(p))
+			for i, j := range p {
+				vs[i] = row.Vals[j]
+			}
+			row.Vals = vs
+		}
 		w.Build.Rows = append(w.Build.Rows, row)
+		if mode == "conflict" {
+			// a use that is accepted only because the precise merge is any
+			t := row.Vals[0].ty()
+			for _, v := range row.Vals[1:] {
+				t = c06Merge(t, v.ty())
+			}
+			key := c06ObjKey(r, row.Vals)
+			switch {
+			case t.K == c06Any:
+				forced = append(forced, "matrix."+n+"."+key)
+			case t.K == c06Arr && t.Elem.K == c06Any:
+				forced = append(forced, "matrix."+n+"[0]."+key)
+			}
+		}
 	}
 	// All literal values of one matrix key have the same shape: then replacing a literal by a
 	// dynamic value only removes information. (With conflicting literals actionlint's Merge falls
@@ -745,7 +838,7 @@ func c06GenWf(r *Rand) *c06Wf {
 		inc := &c06Inc{}
 		used := map[string]bool{}
 		for a := r.Range(1, 2); a > 0; a-- {
-			if r.Bool() {
+			if r.Bool() && len(w.Build.Rows) > 0 {
 				row := w.Build.Rows[r.Intn(len(w.Build.Rows))]
 				if !used[row.Name] {
 					used[row.Name] = true
@@ -768,6 +861,31 @@ func c06GenWf(r *Rand) *c06Wf {
 			w.Build.Inc = append(w.Build.Inc, inc)
 		}
 	}
+	if mode == "norows" {
+		w.Build.Inc = nil
+		for k := r.Range(1, 2); k > 0; k-- {
+			inc := &c06Inc{}
+			for _, n := range r.Perm(3)[:r.Range(1, 2)] {
+				name := []string{"extra", "exp", "more"}[n]
+				if proto[name] == nil {
+					proto[name] = c06GenVal(r, 1)
+				}
+				inc.Names = append(inc.Names, name)
+				inc.Vals = append(inc.Vals, proto[name].vary(r))
+			}
+			w.Build.Inc = append(w.Build.Inc, inc)
+		}
+		for _, i := range r.Perm(len(c06TypedIncPool))[:r.Range(1, 2)] {
+			w.Build.Inc = append(w.Build.Inc, &c06Inc{TypedExpr: c06TypedIncPool[i].Name, TypedT: c06TypedIncPool[i].T})
+		}
+		// a use of a key that only the literal elements define
+		first := w.Build.Inc[0]
+		if first.Vals[0].K != c06Obj && first.Vals[0].K != c06Arr && first.Vals[0].K != c06Null {
+			forced = append(forced, "matrix."+first.Names[0])
+		} else {
+			forced = append(forced, "toJSON(matrix."+first.Names[0]+")")
+		}
+	}
 	buildCtx := map[string]*c06Ty{
 		"matrix": w.Build.ty(), "needs": needsPrep, "inputs": inputs,
 		"steps": c06StepsModel(map[string]*c06Ty{"co": c06ObjOf(nil, "commit", c06TStr, "ref", c06TStr), "cache": c06ObjOf(nil, "cache-hit", c06TStr)}),
@@ -781,6 +899,9 @@ func c06GenWf(r *Rand) *c06Wf {
 	}
 	for k := r.Range(1, 2); k > 0; k-- {
 		w.BuildSteps = append(w.BuildSteps, jg.slots(c06StepSlots, 2, 5))
+	}
+	for _, f := range forced {
+		w.BuildSteps = append(w.BuildSteps, map[string]string{"step-run": c06Quote("echo ${{ " + f + " }}")})
 	}
 
 	// call job
@@ -834,6 +955,9 @@ func c06MatrixVariants(r *Rand, w *c06Wf, pick func(*c06Wf) *c06Matrix, tag stri
 		pick(n).Inc[ii].Expr = d
 		out = append(out, c06Variant{"include-element-by-expression", fmt.Sprintf("%s include element %d given by ${{ %s }}", tag, ii, d), n})
 
+		if inc.TypedExpr != "" {
+			continue
+		}
 		n = w.clone()
 		d = dyn()
 		vi := r.Intn(len(inc.Vals))
@@ -948,6 +1072,7 @@ func c06LintFamilies(r *Run) []*Family {
 			return
 		}
 		a.Count("lint_workflows_clean", 1)
+		a.Count("lint_clean_matrix_shape:"+w.Mode, 1)
 		for vi, v := range c06Variants(c.R, w) {
 			vsrc := v.Wf.render()
 			got, err := c06Lint(vsrc)
@@ -998,6 +1123,11 @@ func c06LintFloors(r *Run) {
 	r.Extra("lint_clean_fraction", fmt.Sprintf("%.3f", float64(clean)/float64(c06Max64(n, 1))))
 	if clean*100 < n*40 {
 		r.Inconclusive(fmt.Sprintf("only %d of %d generated literal workflows were clean (floor 40%%)", clean, n))
+	}
+	for _, m := range []string{"plain", "conflict", "norows"} {
+		if r.Counter("lint_clean_matrix_shape:"+m) < 50 {
+			r.Inconclusive("fewer than 50 clean literal workflows with matrix shape " + m)
+		}
 	}
 	for _, k := range c06LintVariantKinds {
 		if r.Counter("lint_variant:"+k) < 20 {
